@@ -345,8 +345,47 @@ pub fn g_syndrome_pattern() -> BoxedStrategy<RsCase> {
             let nz = |i: usize| if vals[i % 80] == 0 { 1 } else { vals[i % 80] };
             let j = pick(jsel, k); // 0-based syndrome index
             let mut target = vec![0u8; k];
-            let pattern = pick(psel, 9);
+            let pattern = pick(psel, 12);
             match pattern {
+                9 | 10 | 11 => {
+                    // LFSR sequence with ONE innovation: the syndromes follow the recurrence of v genuine
+                    // error locators everywhere except that relation r is broken once (S_r gets an extra
+                    // delta and the sequence continues from the new state).  Exactly one recurrence
+                    // relation fails - the shape a decoder sees when a check of one relation is missing.
+                    let v = match pattern { 9 => 1, 10 => 2.min(t.max(1)), _ => [1usize, 2, 3, t.saturating_sub(2).max(1), t.saturating_sub(1).max(1)][pick(raws[199], 5)] }.min(k.saturating_sub(1)).max(1);
+                    // locator polynomial 1 + c1 x + ... + cv x^v with roots at the chosen error locators
+                    let mut c = vec![1u8];
+                    let mut xs = Vec::new();
+                    for e in 0..v {
+                        let x = gf::pow(2, pick(raws[(e + 7) % 200], n));
+                        xs.push(x);
+                        let mut nc = vec![0u8; c.len() + 1];
+                        for (i, ci) in c.iter().enumerate() {
+                            nc[i] ^= *ci;
+                            nc[i + 1] ^= gf::mul(*ci, x);
+                        }
+                        c = nc;
+                    }
+                    // genuine start: syndromes of the v errors
+                    for (e, x) in xs.iter().enumerate() {
+                        let val = nz(e);
+                        for (m, tm) in target.iter_mut().enumerate().take(v) {
+                            *tm ^= gf::mul(val, gf::pow(*x, m + 1));
+                        }
+                    }
+                    // innovation index, stratified around t-1, t, 2t-1, k-1
+                    let r = [t.saturating_sub(1), t, (2 * t).saturating_sub(1), k - 1, t + 1, j][pick(raws[198], 6)].max(v).min(k - 1);
+                    for m in v..k {
+                        let mut sm = 0u8;
+                        for i in 1..=v {
+                            sm ^= gf::mul(c[i], target[m - i]);
+                        }
+                        if m == r {
+                            sm ^= nz(11);
+                        }
+                        target[m] = sm;
+                    }
+                }
                 0 => target[0] = nz(0),
                 1 => target[j] = nz(1),
                 2 => {
